@@ -341,14 +341,16 @@ def check(ctx, rep):
             wr = [i for i, e in enumerate(p.events) if e.kind == "call" and e.target.kind == "repo" and ws in e.target.funcs]
             if need_child and wr:
                 # the sniff must happen in the child only
-                forked = [e for e in p.events if e.kind == "test" and norm(e.node) in ("pid", "pid != 0", "pid > 0", "pid == 0", "not pid")]
+                _fv = next((t_.id for a_ in ast.walk(m.node) if isinstance(a_, ast.Assign) and isinstance(a_.value, ast.Call) and dotted(a_.value.func) == "os.fork"
+                            for t_ in a_.targets if isinstance(t_, ast.Name)), "pid")
+                forked = [e for e in p.events if e.kind == "test" and norm(e.node) in (_fv, f"{_fv} != 0", f"{_fv} > 0", f"{_fv} == 0", f"not {_fv}")]
                 in_child = False
                 for e in forked:
                     t = norm(e.node)
                     val = e.extra
-                    if t in ("pid", "pid != 0", "pid > 0") and val is False:
+                    if t in (_fv, f"{_fv} != 0", f"{_fv} > 0") and val is False:
                         in_child = True
-                    if t in ("pid == 0", "not pid") and val is True:
+                    if t in (f"{_fv} == 0", f"not {_fv}") and val is True:
                         in_child = True
                 if not in_child:
                     problems.add("the blocking TLS sniff runs in the accepting (parent) process")
